@@ -34,7 +34,7 @@ def shards(tier: str, seed: int):
             out.append(["full", l1e])
     for part in range(4):
         out.append(["rootcache", part])
-    for cover in ("exact", "l1end", "later"):
+    for cover in ("exact", "l1end", "later", "l1end/noL2", "exact/noL2"):  # noL2: the DC omits the L2 key field when L2' = 31 (allowed shape)
         for part in range(4):
             out.append(["api", cover, part])
     return out
@@ -140,10 +140,11 @@ def api_shard(acc, seed: int, cover: str, part: int) -> None:
         blobs[(l1, l2)] = cms.ref_encrypt(rk, API_SID, PT, (l0, l1, l2), cek=d.bytes(32), gcm_nonce_=d.bytes(12), key_nonce=d.bytes(32))
     n = 0
     for l1e, l2e in [(a, b) for a in SUB for b in SUB]:
-      for prime in (("unprotect", "protect-twice") if cover == "exact" else ("unprotect",)):
+      for prime in (("unprotect", "protect-twice") if cover.startswith("exact") else ("unprotect",)):
         cache = dpapi_ng.KeyCache()
         if prime == "unprotect":
-            dc = refdc.DC([rk], now=(361, 0, 0), cover=cover)
+            dc = refdc.DC([rk], now=(361, 0, 0), cover=cover.split("/")[0])
+            dc.l2_at_31 = "/noL2" not in cover
             with transport.network(dc), secctx.scripted_client(lambda u, p, **kw: secctx.ScriptedContext([b"C1"], 16)):
                 try:
                     got = dpapi_ng.ncrypt_unprotect_secret(blobs[(l1e, l2e)], server="dc", username="u", password="p", auth_protocol="ntlm", cache=cache)
@@ -155,7 +156,8 @@ def api_shard(acc, seed: int, cover: str, part: int) -> None:
                 continue
         else:
             # the cache is filled by a protect through the DC whose "now" is (l1e, l2e), followed by a second protect that hits the cache
-            dc = refdc.DC([rk], now=(l0, l1e, l2e), cover=cover)
+            dc = refdc.DC([rk], now=(l0, l1e, l2e), cover=cover.split("/")[0])
+            dc.l2_at_31 = "/noL2" not in cover
             ft = l0 * 1024 * gkdi.B + l1e * 32 * gkdi.B + l2e * gkdi.B + 99
             bad = None
             with seams.clock(ft), transport.network(dc), secctx.scripted_client(lambda u, p, **kw: secctx.ScriptedContext([b"C1"], 16)):
